@@ -75,3 +75,16 @@ mod tests {
         .unwrap();
     }
 }
+
+/// Introspection of the default collector for the verification harness.
+#[cfg(circ_verif)]
+pub mod verif_shim_default {
+    /// The raw data word of the default collector's global epoch (value << 1).
+    pub fn default_epoch_data() -> usize {
+        crate::verif::ed(super::default_collector().global_epoch())
+    }
+    /// The default collector.
+    pub fn default_collector() -> &'static crate::ebr_impl::verif_shim::Collector {
+        super::default_collector()
+    }
+}
